@@ -22,6 +22,8 @@ def scenario_ops(sc, rnd):
             ops += [[13]]
         elif sc['follow'] == 3:
             ops += [[6, 1, 2, 0], [17, 1, 1], [13]]
+        elif sc['follow'] == 4:
+            ops += [[18, sc['opts'] & ~4 | 2], [6, 1, 2, 0], [13]]
         return ops
     if sc.get('geo') == 1:
         rects = {1: (37, 15, 43, 25, 4, 2), 2: (47, 35, 53, 45, 0, 1), 3: (7, 5, 13, 15, 4, 2), 4: (7, 45, 13, 55, 0, 1), 5: (57, 15, 63, 25, 4, 2)}
@@ -39,6 +41,8 @@ def scenario_ops(sc, rnd):
             ops += [[13]]
         elif sc['follow'] == 3:
             ops += [[6, 1, 2, 0], [17, 1, 1], [13]]
+        elif sc['follow'] == 4:
+            ops += [[18, sc['opts'] & ~4 | 2], [6, 1, 2, 0], [13]]
         return ops
     ops = [[1, 1, 2, 2, 10, 10], [1, 2, 14, 14, 22, 22], [1, 3, 26, 2, 34, 10]]
     # non-exclusive pins of both classes on both shapes
@@ -63,6 +67,8 @@ def scenario_ops(sc, rnd):
         ops += [[13]]
     elif sc['follow'] == 3:
         ops += [[6, 1, 2, 0], [17, 1, 1], [13]]
+    elif sc['follow'] == 4:
+        ops += [[18, sc['opts'] & ~4 | 2], [6, 1, 2, 0], [13]]
     return ops
 
 
@@ -107,6 +113,7 @@ def main(tier):
         # every snapshot after a processTransaction(): the improver runs on junction hyperedges whether or not they are registered for rerouting
         seen_reg = True
         k = 0
+        prevJ, prevC = [], []
         for ln in ex['lines']:
             j = json.loads(ln)
             if j.get('e') != 'Op':
@@ -115,6 +122,8 @@ def main(tier):
                 seen_reg = True
             if j.get('processed') and 'shapes' in j:
                 snap = snaps[k]; k += 1
+                snap['prevJ'] = prevJ; snap['prevC'] = prevC
+                prevJ = [q['id'] for q in j['juncs']]; prevC = [q['id'] for q in j['conns']]
                 if seen_reg:
                     snap['terms'] = [[t[0], t[1] * (1024 if t[0] == 0 else 1), t[2] * (1024 if t[0] == 0 else 1)] for t in sc['terms']]
                     recs.append(snap)
@@ -129,7 +138,7 @@ def main(tier):
             sc = scs[meta[i - 1]]
             x = recs[i - 1]
             brief = {'juncs': x['juncs'], 'conns': [{'id': c['id'], 'src': c['src'], 'dst': c['dst'], 'disp': c['disp']} for c in x['conns']],
-                     'newJ': x['newJ'], 'delJ': x['delJ'], 'newC': x['newC'], 'delC': x['delC']}
+                     'newJ': x['newJ'], 'delJ': x['delJ'], 'newC': x['newC'], 'delC': x['delC'], 'prevJ': x['prevJ'], 'prevC': x['prevC']}
             key = 'hyperedge:' + t
             LSq = 1024
             pinpos = {(tuple(p['p'])) for p in x['pins']}
